@@ -30,6 +30,9 @@ func (ft *fnTrans) call(x ssa.Value, c *ssa.CallCommon, h *Heap, reach string) {
 	sig := c.Signature()
 	key, callee := ft.calleeKey(c)
 	var args []TV
+	if ft.omCall(x, key, c, h, reach) {
+		return
+	}
 	if strings.HasPrefix(key, "sync/atomic.Add") {
 		loc := ft.locOf(c.Args[0])
 		nv := vc.define(nameOr(x, "atomic"), "Int", "(+ "+ft.load(loc, *h)+" "+ft.val(c.Args[1])+")")
